@@ -570,6 +570,7 @@ class SsbGraphMinimizer:
                                         style="solid",
                                         shape="ellipse",
                                     )
+                                    actual_break_point["op"].synthetic = True
                                     actual_break_point["op"].remove_marker()
                                     actual_break_point["op"].add_marker(ForeverBreak(loop_id))
                                     es_to_delete.add(loop_edge)
@@ -603,6 +604,7 @@ class SsbGraphMinimizer:
                                         style="solid",
                                         shape="ellipse",
                                     )
+                                    actual_continue_point["op"].synthetic = True
                                     actual_continue_point["op"].remove_marker()
                                     actual_continue_point["op"].add_marker(ForeverContinue(loop_id))
                                     es_to_delete.add(loop_edge)
